@@ -30,9 +30,9 @@ def dispatch (p : String) (j : Json) : Except String Verdict :=
   | "C13" => Decode.check "C13" j
   | "C14" => C14.check j
   | "C15" => C15.check j
-  | "C16" => Handlers.checkCb j
-  | "C17" => Handlers.checkRetry j
-  | "C18" => Handlers.checkLimit j
+  | "C16" => if jStrD j "op" "" = "handlers-order" then Conc.check "C07" j else Handlers.checkCb j
+  | "C17" => if jStrD j "op" "" = "handlers-order" then Conc.check "C07" j else Handlers.checkRetry j
+  | "C18" => if jStrD j "op" "" = "handlers-order" then Conc.check "C07" j else Handlers.checkLimit j
   | "C20" => C20.check j
   | _ => .error s!"no driver for property {p}"
 
